@@ -202,6 +202,36 @@ DETAIL = 'centre rows ' + repr(np.floor_divide(v, ph).tolist()) + ' cols ' + rep
     u.oblige(None, "mixed.centre_maps_back", z3.ToInt(((z3.ToReal(x) + z3.RealVal("1/2")) * s_) / s_) == x, {}, rp, fnq=fv.qualname, hyps=[s_ > 0, x >= 0])
 
 
+EMPTY_REPLAY = lambda w: {"code": """
+import numpy as np, pandas as pd, verif_probes as VP
+VIOLATED, DETAIL = False, 'a reset returns the charge to zero whatever history filled it'
+def total(det): return float(np.sum(det.charge.array))
+# history 1: clusters added one by one;  history 2: an array, then a cluster batch of length zero (the array is folded into the table while
+# the cluster counter stays 0);  history 3: the table restored directly (as Detector.from_dict does)
+for name in ('clusters', 'array then empty batch', 'restored table'):
+    det = VP.detector()
+    if name == 'clusters':
+        det.charge.add_charge(particle_type='e', particles_per_cluster=np.array([5.0, 7.0]), init_energy=np.zeros(2), init_ver_position=np.array([0.5, 1.5]), init_hor_position=np.array([0.5, 2.5]),
+                              init_z_position=np.zeros(2), init_ver_velocity=np.zeros(2), init_hor_velocity=np.zeros(2), init_z_velocity=np.zeros(2))
+    elif name == 'array then empty batch':
+        det.charge.add_charge_array(np.full((3, 4), 2.0))
+        det.charge.add_charge(particle_type='e', particles_per_cluster=np.array([]), init_energy=np.array([]), init_ver_position=np.array([]), init_hor_position=np.array([]),
+                              init_z_position=np.array([]), init_ver_velocity=np.array([]), init_hor_velocity=np.array([]), init_z_velocity=np.array([]))
+    else:
+        other = VP.detector()
+        other.charge.add_charge(particle_type='e', particles_per_cluster=np.array([5.0]), init_energy=np.zeros(1), init_ver_position=np.array([0.5]), init_hor_position=np.array([0.5]),
+                                init_z_position=np.zeros(1), init_ver_velocity=np.zeros(1), init_hor_velocity=np.zeros(1), init_z_velocity=np.zeros(1))
+        det.charge._frame = other.charge.frame.copy()
+    before = total(det)
+    det.charge.empty()
+    after = total(det)
+    det.charge.add_charge_array(np.full((3, 4), 1.0))
+    later = total(det)
+    if before <= 0 or after != 0.0 or later != 12.0 or len(det.charge.frame) not in (0,):
+        VIOLATED, DETAIL = True, f'history "{name}": total charge {before} before the reset, {after} after it, {later} after adding 12 e- to the reset detector (table rows {len(det.charge.frame)})'; break
+""", "expect": "after Charge.empty() the charge array is zero and the cluster table is empty, for every way the charge got there"}
+
+
 @unit("C14", "empty")
 def empty(u: Unit):
     fi = u.fn(f"{CH}::Charge.empty")
@@ -213,7 +243,7 @@ def empty(u: Unit):
     ps = u.paths(fi, setup, cfg, label="Charge.empty")
     for p in ps:
         ch = p.st.cell(p.ex.det_parts["charge"]).fields
-        u.oblige(p, "empty.zero", z3.And(zb(p.kind == "return"), D.frame_elem(p.st, ch["_array"]) == 0, ch["_frame"].info["nrows"] == 0), {}, BIN_REPLAY)
+        u.oblige(p, "empty.zero", z3.And(zb(p.kind == "return"), D.frame_elem(p.st, ch["_array"]) == 0, ch["_frame"].info["nrows"] == 0), {}, EMPTY_REPLAY)
     u.cover("empty.cover", ps, lambda p: p.kind == "return")
 
 
